@@ -681,8 +681,26 @@ impl Engine for Inject {
             };
             script.push(op);
         }
-        // where the script fires: a seeded plan over the first steps
-        let horizon = rng.range(1, 10);
+        // where the script fires: a seeded plan over the first steps; most hosts run for only a
+        // few steps, so the plan is kept within the number of steps the frozen graph would give
+        let est = match &host {
+            Host::IterOut { u } | Host::IterInto { u } => {
+                if directed {
+                    m.out(*u).len()
+                } else {
+                    m.adj(*u).len()
+                }
+            }
+            Host::IterIn { u } => {
+                if directed {
+                    m.inn(*u).len()
+                } else {
+                    m.adj(*u).len()
+                }
+            }
+            Host::Search { .. } => m.edges.len().min(8),
+        };
+        let horizon = if rng.chance(1, 5) { rng.range(1, 10) } else { rng.range(1, est.max(1)) };
         let mut fire = vec![0u8; horizon];
         for _ in 0..script.len() {
             let i = rng.below(horizon);
